@@ -66,6 +66,10 @@ def main():
         res.cleanup()
         ck.finish({"states": max(res.distinct, 1), "transitions": max(res.generated, 1), "traces_validated_against_impl": 0})
 
+    # unbounded part (Apalache, SMT over all integers k): code-shaped reflection = triangle wave, ranges, idempotence, periodicity
+    apa, apa_text = tlc.run_apalache("FoldApa", "Inv", cinit="ConstInit", length=1, timeout=300)
+    if apa == "violation":
+        ck.violation("spec:FoldApa", "Apalache refutes an unbounded fold identity", {"apalache": apa_text})
     ulp1 = np.finfo(float).eps
     replayed = 0
     nontrivial = set()
@@ -206,6 +210,7 @@ def main():
         "exhaustive": True,
         "oracle_points_validated_against_spec": oracle_checked,
         "ieee_cases": ieee,
+        "apalache_unbounded_fold_identities": apa,
         "system_runs": sc["system_runs"], "system_events_validated": sc["system_events_validated"],
         "tlc_coverage": {k: list(v) for k, v in res.coverage.items()},
         "constants": consts,
